@@ -42,7 +42,7 @@ CHECKS = {
    note="cdist by contract; ties excluded; A1, A2; arbitrary shapes not proved",
    tech=TECH + ": symbolic execution of the real class per shape, path enumeration, z3; plus " + BND, ref="DESIGN.md section 6 C08"),
  "C10": dict(cat="other", engine="pyvc+smallscope",
-   text="remove_hydrogens: loop invariants with ghost counting functions on the AST of the real function, molecules and restraint lists of arbitrary length (z3 arrays + quantifiers): positions of non-hydrogen atoms in order, kept restraints in order designating the same two atoms. _split_list: contiguous non-empty covering parts for every list length and every number of parts 1..40. Bounded part: role swap / hydrogen filtering routed to the optimiser entry point, guessers exhaustive 1..40 x 1..40, Manager option routing.",
+   text="remove_hydrogens: loop invariants with ghost counting functions on the AST of the real function, molecules and restraint lists of arbitrary length (z3 arrays + quantifiers): positions of non-hydrogen atoms in order, kept restraints in order designating the same two atoms. _split_list: contiguous non-empty covering parts for every list length and every number of parts 1..40. guess_protein_restrains (any number of residues of any sizes, guess_residue_restrains by contract): pairs only join residues at the same sequence position, indices in range, every atom has a partner, equal residue counts required. Bounded part: role swap / hydrogen filtering routed to the optimiser entry point, guessers exhaustive 1..40 x 1..40, Manager option routing.",
    note="element test abstracted as a pure predicate; numpy.array keeps row order; routing through Alignment/Manager is bounded only",
    tech=TECH + ": AST VC generation with quantified loop invariants over arrays (z3) + " + BND, ref="DESIGN.md section 6 C10"),
  "C11": dict(cat="other", engine="pyvc+smallscope",
